@@ -311,6 +311,17 @@ def _settings(repo, rep):
                   detail="save=%s set=%s body=%s restore=%s" % (
                       save and save[0], setv and setv[0], body,
                       restore and restore[0]))
+        # ... for every value of the attribute (an empty domain / context
+        # is a setting too: it resets the one in force)
+        kids = lin.all(L.is_child("node.node"))
+        uncond = len(kids) == 1 and not lin.conds(kids[0]) and all(
+            x is not None and not lin.conds(x[0])
+            for x in (save, setv, restore))
+        rep.check(uncond, "R10.3", site, "the bracket is emitted on every "
+                  "compile-time path: no value of the attribute (not even an "
+                  "empty one) skips the setting", construct="bracket-always",
+                  where=wh, detail="element emitted %d time(s), conditions %s"
+                  % (len(kids), [lin.conds(k) for k in kids][:2]))
         if save:
             okp, why = A.per_node(save[2])
             rep.check(okp, "R10.3", site, "the backup local is per-node "
@@ -415,6 +426,33 @@ def _wrappers(repo, rep):
         rep.check(bool(calls), "R10.3", f.qualname, "the encoding wrapper "
                   "calls the translation function it wraps",
                   construct="wrapper-calls", where=wh)
+        # the message id reaches the wrapped function as it came in; the
+        # only rewriting is the decoding of bytes
+        first = params[0].arg if params else None
+        for n in ast.walk(w):
+            tg = []
+            if isinstance(n, ast.Assign):
+                tg = n.targets
+            elif isinstance(n, (ast.AugAssign, ast.AnnAssign)):
+                tg = [n.target]
+            for t_ in tg:
+                if isinstance(t_, ast.Name) and t_.id == first:
+                    gs = L.guards_of(n, w)
+                    okg = any(truth and src(test).replace(" ", "") ==
+                              "isinstance(%s,bytes)" % first
+                              for test, truth in gs)
+                    rep.check(okg, "R10.3", f.qualname, "the wrapper rewrites "
+                              "the message id only to decode bytes (message "
+                              "objects keep their default and mapping)",
+                              construct="wrapper-msgid", where=wh,
+                              detail="%s under %s" % (src(n), [
+                                  src(x) for x, _ in gs]))
+        for c in calls:
+            if c.args:
+                rep.check(src(c.args[0]) == first, "R10.3", f.qualname,
+                          "the wrapper hands the message id on as its first "
+                          "argument", construct="wrapper-msgid-arg", where=wh,
+                          detail=src(c))
         names = {x.arg for x in params + a.kwonlyargs}
         for c in calls:
             star = [k for k in c.keywords if k.arg is None]
@@ -439,7 +477,55 @@ def _wrappers(repo, rep):
               where=wh)
 
 
+def _translate_applied(repo, rep):
+    """i18n:translate wraps the element's content whenever the statement is
+    present and the content is static -- also for an element without
+    children (an explicit id is still looked up, with an empty default)."""
+    f = repo.func("chameleon.zpt.program.MacroProgram.visit_element")
+    sites = [n for n in ast.walk(f.node) if isinstance(n, ast.Call)
+             and src(n.func) == "nodes.Translate"]
+    rep.check(len(sites) == 1, "R10.1", f.qualname, "one construction site "
+              "of the element-level Translate node",
+              construct="translate-site", where=L.where(f))
+    for c in sites:
+        gs = [(src(t), v) for t, v in L.guards_of(c, f.node)
+              if not isinstance(t, ast.ExceptHandler)]
+        # (the macro-use branch builds no element at all)
+        gs = [g for g in gs if not (L.cond_holds(
+            [g], "use_macro or extend_macro", False))]
+        ok = len(gs) == 1 and L.cond_holds(gs, "dynamic", False)
+        rep.check(ok, "R10.1", f.qualname, "the Translate wrapper is applied "
+                  "under exactly one condition: no tal:content / tal:replace "
+                  "on the element", construct="translate-applied",
+                  where=L.where(f, c.lineno), detail=str(gs))
+    # the placeholder grammar of the default translation function accepts
+    # every name, also a single letter
+    from .. import rx
+    nre = repo.const("chameleon.i18n", "NAME_RE")
+    if not isinstance(nre, str):
+        raise AnalysisError("chameleon.i18n.NAME_RE vanished")
+    items = list(rx.parse(nre, 0))
+    C = rx.C
+    ok = len(items) == 2 and items[0][0] is C.IN and \
+        items[1][0] in (C.MAX_REPEAT, C.MIN_REPEAT) and items[1][1][0] == 0 \
+        and items[1][1][1] >= 255
+    if ok:
+        head = rx.in_set(items[0][1])
+        tail = rx.in_set(list(items[1][1][2])[0][1]) if list(
+            items[1][1][2])[0][0] is C.IN else None
+        letters = rx.CharSet.of("abcdefghijklmnopqrstuvwxyz"
+                                "ABCDEFGHIJKLMNOPQRSTUVWXYZ")
+        ok = letters <= head and tail is not None and head <= tail and \
+            rx.CharSet.of("_") <= tail and rx.CharSet.of("-") <= tail and \
+            rx.CharSet.of("0") <= tail
+    rep.check(ok, "R10.6", "chameleon.i18n.NAME_RE", "a placeholder name is "
+              "one letter followed by any number (also none) of letters, "
+              "digits, '-' and '_': ${n} with a one-letter i18n:name is "
+              "interpolated", construct="name-grammar", detail=nre)
+
+
 def _names(repo, rep):
+    _translate_applied(repo, rep)
     f = repo.func(CC + "visit_Name")
     res = L.emission(repo, f.qualname)
     site = f.qualname
